@@ -15,7 +15,7 @@ import z3
 
 from . import array as A
 from .array import SymArray, as_sym, has_sym
-from .scalar import Q, SymBool, Unsupported, isb, band, bor, bnot, bz, eqv
+from .scalar import Q, SymBool, Unsupported, Lin, isb, band, bor, bnot, bz, eqv
 
 _PASSTHROUGH_TYPES = (type,)
 
@@ -270,6 +270,8 @@ def uf_axioms(terms):
         for fn, args, res in apps:
             for a in args:
                 for part in (a.n, a.d, a.rn, a.rd, a.nan, a.inf):
+                    if isinstance(part, Lin):
+                        part = part.z()
                     if isinstance(part, z3.ExprRef):
                         new = uf_vars_in(part) - names
                         if new:
